@@ -250,6 +250,36 @@ func run(c *mon.Case) {
 		}
 		form := []string{"%d", "%#x", "0%o", "0b%b"}[r.Intn(4)]
 		line := fmt.Sprintf("%s "+form, []string{"address", "addr", "a"}[r.Intn(3)], a)
+		// the lookup must not depend on where the cursor is: move it first (real goto
+		// command), preferring ellipsis rows, the first and the last row
+		if len(got) > 0 && r.Intn(3) != 0 {
+			target := r.Intn(len(got))
+			switch r.Intn(4) {
+			case 0:
+				var ell []int
+				for i, x := range got {
+					if x.ellipsis {
+						ell = append(ell, i)
+					}
+				}
+				if len(ell) > 0 {
+					target = ell[r.Intn(len(ell))]
+				}
+			case 1:
+				target = len(got) - 1
+			}
+			gres := s.Exec(fmt.Sprintf("goto %d", target))
+			if gres.Panicked {
+				c.Fail("C32.address.panic", map[string]string{"site": mon.PanicSite(gres.Stack)}, "goto %d panicked: %v\n%s\n%s", target, gres.PanicVal, desc(), gres.Stack)
+				return
+			}
+			if cur, _ := mm.Cursor(); cur == target {
+				c.Count("address_probes_after_goto", 1)
+				if got[target].ellipsis {
+					c.Count("address_probes_from_ellipsis_row", 1)
+				}
+			}
+		}
 		before, _ := mm.Cursor()
 		res := s.Exec(line)
 		c.Eval(1)
@@ -293,7 +323,7 @@ func run(c *mon.Case) {
 func main() {
 	mon.Main(mon.Spec{
 		Prop: "C32",
-		Rule: "case = memory (Sparse, Bytes or Overlay(Bytes,Sparse)) with constant content written as 1..3 clusters of overlapping stores of widths 1..16 (bytes written as parts of wider values, partially overwritten) at bases {0,0x1000,0x1ffe8,0xfff0,2^40}; the whole view is rendered and parsed back from stdout, then 50 'address' commands (decimal/hex/octal/binary spellings) are executed through the real command loop; non-trivial = memory whose rows contain an absent cell and at least one ellipsis between rows; distinct by store history",
+		Rule: "case = memory (Sparse, Bytes or Overlay(Bytes,Sparse)) with constant content written as 1..3 clusters of overlapping stores of widths 1..16 (bytes written as parts of wider values, partially overwritten) at bases {0,0x1000,0x1ffe8,0xfff0,2^40}; the whole view is rendered and parsed back from stdout, then 50 'address' commands (decimal/hex/octal/binary spellings) are executed through the real command loop, two thirds of them after a real 'goto' to another row (ellipsis rows, first and last row preferred); non-trivial = memory whose rows contain an absent cell and at least one ellipsis between rows; distinct by store history",
 		Explanation: "oracle: shadow byte map -> expected rows: one per 16-byte aligned window touching stored bytes, in address order, each cell the hex value or the absent mark, an ellipsis row between non-consecutive windows (leading/trailing ellipsis rows tolerated); 'address a' must select the row of a stored byte, must fail and keep the cursor when a lies in no shown window, and may do either for an absent byte inside a shown window",
 		Assumptions: []string{"row syntax parsed back with a regular expression transcribed from the rendered layout", "memory view reached through verif hooks"},
 		Cases: func(t string) int {
@@ -308,7 +338,7 @@ func main() {
 			}
 			return 1200
 		},
-		RequiredCounts: []string{"memories_sparse", "memories_bytes", "memories_overlay", "address_hits", "address_misses", "address_absent_cells", "rows_compared"},
+		RequiredCounts: []string{"memories_sparse", "memories_bytes", "memories_overlay", "address_hits", "address_misses", "address_absent_cells", "rows_compared", "address_probes_after_goto", "address_probes_from_ellipsis_row"},
 		Run:            run,
 	})
 }
